@@ -294,6 +294,16 @@ def oracle_case(case):
 # --------------------------------------------------------------------------
 # Coq rendering of a case for Model/M_C09.v
 # --------------------------------------------------------------------------
+def _wc_fields(case, fh):
+    """the field maxima the model's wfcfg carries: (max_x_field, max_y_field) for the code as it stands,
+    max_field once proposed_fixes/C09-signed-max-y-field.diff is applied (Model/M_C09.v says which)"""
+    import os
+    txt = open(os.path.join(vlib.COQ, 'Model', 'M_C09.v')).read()
+    if 'w_maxfield' in txt:
+        return fh(case['max_field'])
+    return f'{fh(case["max_x_field"])} {fh(case["max_y_field"])}'
+
+
 def coq_case_defs(tag, case):
     fh = vlib.fhex
     ap, apv, _, _ = paraxcorr.ap_args(case['spec'])
@@ -301,7 +311,7 @@ def coq_case_defs(tag, case):
     surfs = '[' + ';\n  '.join(lensgen.coq_surf(s, fh) for s in case['surfs']) + ']'
     return (f'Definition l{tag} := {surfs}.\n' + paraxcorr.coq_lens(f'p{tag}', case['ps']) + '\n'
             f'Definition lc{tag} := lc_of (O:=FOps) p{tag} {ap} {apv} {angle} {fh(case["max_field"])}.\n'
-            f'Definition wc{tag} := wc_of (O:=FOps) p{tag} {ap} {apv} {angle} {fh(case["max_x_field"])} {fh(case["max_y_field"])}.\n')
+            f'Definition wc{tag} := wc_of (O:=FOps) p{tag} {ap} {apv} {angle} {_wc_fields(case, fh)}.\n')
 
 
 def coq_case_check(tag, case, tol):
@@ -330,6 +340,17 @@ def coq_launch_check(tag, case, tol=1e-9):
 IMPORTS = 'From OV Require Import Model.Trace Model.Paraxial Gen.Wavefront Model.M_C09.'
 
 
+def run_cases_fresh(tag, bodies):
+    """vlib.run_cases; when a concurrent check rebuilt a shared library under our feet (coqc reports
+    'inconsistent assumptions'), rebuild our model under the lock and try once more"""
+    res = vlib.run_cases(tag, IMPORTS, bodies)
+    if any(r[0] == 'error' and 'inconsistent assumptions' in r[1] for r in res):
+        with vlib.Lock():
+            vlib.coq_make(['Model/M_C09.vo', 'Num/FloatInst.vo'])
+        res = vlib.run_cases(tag, IMPORTS, bodies)
+    return res
+
+
 def run_model(cases, tol=1e-7, tag='C09wf', rays_per_file=160):
     """returns (per-case ok flags for field_data, per-case ok flags for the launch, n evaluations)"""
     bodies, index = [], []
@@ -351,7 +372,7 @@ def run_model(cases, tol=1e-7, tag='C09wf', rays_per_file=160):
         if cur_n >= rays_per_file:
             flush()
     flush()
-    res = vlib.run_cases(tag, IMPORTS, bodies)
+    res = run_cases_fresh(tag, bodies)
     ok_data = [True] * len(cases)
     ok_launch = [True] * len(cases)
     n = 0
